@@ -344,11 +344,11 @@ pub fn run(ctx: &Ctx) -> EvidenceMeta {
   let mut jobs: Vec<Job> = vec![];
   for s in &subs {
     let n = match s.proto {
-      Proto::V4L | Proto::V2L => ctx.n(2500, 50_000),
-      p if p.is_local() => ctx.n(800, 16_000),
-      Proto::V2P | Proto::V4P => ctx.n(500, 10_000),
-      Proto::V1P => ctx.n(150, 3000),
-      _ => ctx.n(40, 800),
+      Proto::V4L | Proto::V2L => ctx.n(12_000, 120_000),
+      p if p.is_local() => ctx.n(4000, 40_000),
+      Proto::V2P | Proto::V4P => ctx.n(2500, 25_000),
+      Proto::V1P => ctx.n(600, 6000),
+      _ => ctx.n(150, 1500),
     };
     jobs.push(Box::new(move || ctx.prop(s, case(s.proto, s.layer), n)));
   }
